@@ -5,6 +5,7 @@ import (
 	"flag"
 	"fmt"
 	"os"
+	"path/filepath"
 	"sort"
 	"strconv"
 	"strings"
@@ -231,8 +232,29 @@ func TestWorker(t *testing.T) {
 		return
 	}
 
-	if p.Corpus != nil && from == 0 {
-		for i, sc := range p.Corpus(tier) {
+	if from == 0 {
+		var corpus []*world.Scenario
+		if p.Corpus != nil {
+			corpus = p.Corpus(tier)
+		}
+		dir := os.Getenv("VERIF_DIR")
+		if dir == "" {
+			dir = "/verif"
+		}
+		files, _ := filepath.Glob(filepath.Join(dir, "corpus", id, "*.json"))
+		sort.Strings(files)
+		for _, f := range files {
+			b, err := os.ReadFile(f)
+			if err != nil {
+				continue
+			}
+			var rf ReplayFile
+			if json.Unmarshal(b, &rf) == nil && rf.Scenario != nil {
+				rf.Scenario.Forced = nil
+				corpus = append(corpus, rf.Scenario)
+			}
+		}
+		for i, sc := range corpus {
 			runOne(sc, -1-i)
 		}
 	}
